@@ -226,6 +226,8 @@ class Audit:
         eng = RangeEngine(self.p, inline_depth=7, max_paths=1500,
                           inline_filter=lambda callee: callee in pathset or self._small(callee))
         eng._tbb = self.eng._tbb
+        eng.range_hints = self.eng.range_hints
+        eng.invariants = self.eng.invariants
         saved = self.eng
         self.eng = eng
         res = None
